@@ -44,7 +44,7 @@ def h_log_cmdRun : Nat := 0x36a7e9ecb008df69
 def h_rest_log_dag_scheduler_node_go : Nat := 0xd42b32c666181e44
 
 /-- hash of the normalised skeleton of * (internal/dag/executor/command.go) -/
-def h_rest_log_dag_executor_command_go : Nat := 0x05cf8d436bdc4458
+def h_rest_log_dag_executor_command_go : Nat := 0x9e6d29595f3ee3ae
 
 /-- hash of the normalised skeleton of * (internal/util/utils.go) -/
 def h_rest_log_util_utils_go : Nat := 0x0ed6c520f1bfd84b
